@@ -158,6 +158,7 @@ class Converter:
         self.genv = block_env(blk)
         self.loops = []             # (name, for-node id)
         self.tmps = {}              # name -> id of the value node of the latest assignment
+        self.tmps_all = {}          # name -> ids of the value nodes of all assignments so far (visit order)
         self.struct = []            # statement structure for the interpreter
 
     # -- static info ----------------------------------------------------------------------
@@ -263,7 +264,7 @@ class Converter:
             if r.name in self.tmps:
                 vid = self.tmps[r.name]
                 vpy = self.py[vid - 1]
-                return self.emit("tmp", r, role, py=vpy, v=vid,
+                return self.emit("tmp", r, role, py=vpy, v=vid, vs=list(self.tmps_all[r.name]),
                                  st=bool(self.nodes[vid - 1].get("st")) and not isinstance(vpy, list))
             return self.opaque(r, role)
         if cn == "Attribute":
@@ -383,6 +384,7 @@ class Converter:
             for t in r.targets:
                 if type(t).__name__ == "TmpVar":
                     self.tmps[t.name] = v
+                    self.tmps_all.setdefault(t.name, []).append(v)
             out.append(("assign", r, v, tids, aids))
         elif cn == "If":
             c = self.expr(r.cond)
